@@ -766,6 +766,18 @@ Proof.
   intros H. split; [now apply bld_spelling|]. apply make_bld_spelling_cases. now apply (bld_rel_ok_nonnil d).
 Qed.
 
+(* the build directory ITSELF (the path with the empty suffix, e.g. the include directory of a header generated at the top
+   of the build directory): compile_commands.json names it by a single dot, as the Make and Ninja writers do *)
+Theorem build_root_spelling d bc : d_bld d = render 1 bc -> bc <> [] -> normal bc ->
+  stringify_path d RBld [] = dot /\ make_bld_spelling [] = dot.
+Proof.
+  intros Hb Hbc Nb. split; [|reflexivity].
+  unfold stringify_path, path_string, base_join. cbn [is_nil]. rewrite Hb. unfold posix_relpath.
+  rewrite (rel_comps_render1 bc Nb).
+  pose proof (common_len_app bc []) as E. rewrite app_nil_r in E. rewrite E.
+  rewrite Nat.sub_diag, skipn_all. reflexivity.
+Qed.
+
 Theorem compdb_path_unit uw d sfx : no_sq (d_src d) = true -> d_src d <> [] -> sfx <> [] ->
   sh_words uw (path_text (d_src d) (c_slash :: sfx)) = Some [stringify_path d RSrc sfx].
 Proof.
